@@ -15,7 +15,7 @@ def run(tier, seed, replay=None):
     binary = build(chk)
     if not binary:
         return chk.finish(rule='harness build failed')
-    scripts = gen_scripts(chk, tier, zoo, paths, profiles=('fill', 'fill', 'mixed', 'mem'))
+    scripts = gen_scripts(chk, tier, zoo, paths, profiles=('fill', 'brim', 'brim', 'mixed', 'mem'))
     scripts = maybe_replay(chk, replay, scripts, zoo, paths)
     traces = run_histories(chk, binary, [{k: v for k, v in s.items() if not k.startswith('_')} for s in scripts])
     nfind = oracle_pass(chk, scripts, traces, ('C03',))
